@@ -184,7 +184,9 @@ public:
             return {pos, lo, hi};
         }
 
-        auto p = int64_t(root_slope * (k - first_key)) + root_intercept;
+        // Saturate: far from the data the product can exceed the range of int64_t (the conversion would be undefined)
+        auto root_product = root_slope * (k - first_key);
+        auto p = (root_product < Floating(int64_t(1) << 62) ? int64_t(root_product) : int64_t(1) << 62) + root_intercept;
         auto pos = std::min<size_t>(p > 0 ? size_t(p) : 0ull, root_range);
 
         for (const auto &level : levels) {
@@ -330,7 +332,8 @@ struct CompressedPGMIndex<K, Epsilon, EpsilonRecursive, Floating>::CompressedLev
     }
 
     inline size_t operator()(const std::vector<Floating> &slopes, size_t i, K k) const {
-        auto pos = int64_t(get_slope(slopes, i) * (k - keys[i])) + get_intercept(i);
+        auto product = get_slope(slopes, i) * (k - keys[i]);
+        auto pos = (product < Floating(int64_t(1) << 62) ? int64_t(product) : int64_t(1) << 62) + get_intercept(i);
         return pos > 0 ? size_t(pos) : 0ull;
     }
 
